@@ -1397,10 +1397,10 @@ func testH2(t *testing.T, prop string) {
 	var s *explore.Suite
 	if prop == "C09" {
 		s = explore.NewSuite(t, "C09", "model_checking",
-			"a real relay pair (newRelay x2, relayFrames running) between two raw-frame endpoints on simulated pipes; (flow) receiver window w in {8,16} x data direction x connection window {ample, w+4 left} then EVERY sequence of depth 3 (quick; depth 4 for the 8-octet window with both connection-window set-ups) / 5 (thorough) over the menu {DATA sizes 3/w/w+1 on 2 streams, padded DATA, empty and non-empty END_STREAM DATA, RST, trailers, WINDOW_UPDATE stream/connection by 1/w, SETTINGS_INITIAL_WINDOW_SIZE down (w/2, 0) and up (2w)} with explicit-state dedupe on (relay windows and queues, receiver ledger); (stalled-receiver) the receiver stops reading before step k (every k) and the relay's output channel towards it is filled, then EVERY sequence of the remaining events of a depth-3 (quick) / 4 (thorough) sequence over an 11-event menu arrives while emissions wait for room, then the receiver reads on; (header-block-at-frame-size-limit) one header block whose literal value grows octet by octet from 16234 to 16394 octets (across MAX_FRAME_SIZE 16384) x {with, without priority fields} x {request, response}; (frame-size) SETTINGS_MAX_FRAME_SIZE changes of both endpoints x DATA of 16384..40000 octets x header blocks of 20000/40000 octets x PUSH_PROMISE, depth 3/4; oracles at every quiescent state: every DATA frame fits the credit its receiver had granted on stream and connection, no frame exceeds the receiver's MAX_FRAME_SIZE, WINDOW_UPDATEs returned to a sender = flow-controlled octets (incl. padding) it sent on stream and connection, no queued frame that fits is held back")
+			"a real relay pair (newRelay x2, relayFrames running) between two raw-frame endpoints on simulated pipes; (flow) receiver window w in {8,16} x data direction x connection window {ample, w+4 left} then EVERY sequence of depth 3 (quick; depth 4 for the 8-octet window with both connection-window set-ups) / 5 (thorough) over the menu {DATA sizes 3/w/w+1 on 2 streams, padded DATA, empty and non-empty END_STREAM DATA, RST, trailers, WINDOW_UPDATE stream/connection by 1/w, SETTINGS_INITIAL_WINDOW_SIZE down (w/2, 0) and up (2w)} with explicit-state dedupe on (relay windows and queues, receiver ledger); (stalled-receiver) the receiver stops reading before step k (every k) and the relay's output channel towards it is filled, then EVERY sequence of the remaining events of a depth-3 (quick) / 4 (thorough) sequence over an 11-event menu arrives while emissions wait for room, then the receiver reads on; (header-block-at-frame-size-limit) one header block whose literal value grows octet by octet from 16234 to 16394 octets (across MAX_FRAME_SIZE 16384) x {with, without priority fields} x {request, response}; (frame-size) SETTINGS_MAX_FRAME_SIZE changes of both endpoints x DATA of 16384..40000 octets x header blocks of 20000/40000 octets x PUSH_PROMISE, depth 3/4; oracles at every quiescent state: every DATA frame fits the credit its receiver had granted on stream and connection, no frame exceeds the receiver's MAX_FRAME_SIZE, WINDOW_UPDATEs returned to a sender = flow-controlled octets (incl. padding) it sent on stream and connection, no queued frame that fits is held back; (config-proxy, round 9) the REAL entry point Config.Proxy (connection preface, TLS dial of the origin through a build-time seam, wiring of the relays) between a raw client and a raw TLS origin: client SETTINGS {none, INITIAL_WINDOW_SIZE 8 / 1000} x {MAX_FRAME_SIZE none / 20000} x {connection WINDOW_UPDATE none / 100000} x first-flight segmentation(6: every piece its own segment, preface | rest, preface+SETTINGS | rest, all in one segment, no waiting, the preface itself in two segments) then EVERY sequence of 2 (quick) / 3 (thorough) events out of 7 (DATA both ways, WINDOW_UPDATE, SETTINGS, an 18000-octet DATA frame, a pause of two minutes), the same ledger / frame-size / fidelity oracles plus final delivery once both receivers open their windows wide; (through-martian) the same through martian.Proxy: CONNECT intercepted (handleMITM), ALPN h2, idle timeout 30 s configured, client window {default, 8} x segmentation {pieces, one segment} x the same event sequences")
 	} else {
 		s = explore.NewSuite(t, "C10", "model_checking",
-			"a real relay pair between two raw-frame endpoints with their own HPACK state; (fidelity) EVERY sequence of depth 3 (quick) / 4 (thorough) over a menu of ~25-40 enabled events on 2 streams in both directions {HEADERS plain / with priority / END_STREAM / split by the sender into HEADERS+CONTINUATION at several points / 20000-octet block, DATA small / padded / 20000 octets / empty END_STREAM, trailers (+CONTINUATION), RST_STREAM, PUSH_PROMISE, PRIORITY, PING, SETTINGS incl. HEADER_TABLE_SIZE 0/4096, SETTINGS ack, GOAWAY}; (stalled-fidelity) one endpoint stops reading before step k (every k), then EVERY sequence of the remaining events of a depth-3 (quick) / 4 (thorough) sequence over {20000-octet header blocks / trailers towards it, DATA both ways, PING, SETTINGS, WINDOW_UPDATE} arrives while the relay's writes to it are blocked, then it reads on: header blocks must arrive contiguous and everything decodes as sent; (flow) the flow family of C09 (w in {8,16} x direction x connection window {ample, w+4 left}, EVERY sequence of depth 3 quick - depth 4 for the 8-octet window - / 5 thorough, the visiting order of the per-stream queues explored) with its no-stranding and final-delivery oracles; (frame-size) the frame-size family of C09 (endpoints announcing different SETTINGS_MAX_FRAME_SIZE, header blocks of 20000/40000 octets, PUSH_PROMISE, large DATA; depth 3/4): a frame larger than any limit its receiver ever announced cannot be decoded by a conforming receiver; at every quiescent state the receiver's decoded element sequence per stream (header lists, concatenated DATA, END_STREAM position, RST code, PUSH_PROMISE) must be a prefix of what the sender emitted, connection-level frames must be relayed in order, and at the end everything emitted must have been decoded")
+			"a real relay pair between two raw-frame endpoints with their own HPACK state; (fidelity) EVERY sequence of depth 3 (quick) / 4 (thorough) over a menu of ~25-40 enabled events on 2 streams in both directions {HEADERS plain / with priority / END_STREAM / split by the sender into HEADERS+CONTINUATION at several points / 20000-octet block, DATA small / padded / 20000 octets / empty END_STREAM, trailers (+CONTINUATION), RST_STREAM, PUSH_PROMISE, PRIORITY, PING, SETTINGS incl. HEADER_TABLE_SIZE 0/4096, SETTINGS ack, GOAWAY}; (stalled-fidelity) one endpoint stops reading before step k (every k), then EVERY sequence of the remaining events of a depth-3 (quick) / 4 (thorough) sequence over {20000-octet header blocks / trailers towards it, DATA both ways, PING, SETTINGS, WINDOW_UPDATE} arrives while the relay's writes to it are blocked, then it reads on: header blocks must arrive contiguous and everything decodes as sent; (flow) the flow family of C09 (w in {8,16} x direction x connection window {ample, w+4 left}, EVERY sequence of depth 3 quick - depth 4 for the 8-octet window - / 5 thorough, the visiting order of the per-stream queues explored) with its no-stranding and final-delivery oracles; (frame-size) the frame-size family of C09 (endpoints announcing different SETTINGS_MAX_FRAME_SIZE, header blocks of 20000/40000 octets, PUSH_PROMISE, large DATA; depth 3/4): a frame larger than any limit its receiver ever announced cannot be decoded by a conforming receiver; at every quiescent state the receiver's decoded element sequence per stream (header lists, concatenated DATA, END_STREAM position, RST code, PUSH_PROMISE) must be a prefix of what the sender emitted, connection-level frames must be relayed in order, and at the end everything emitted must have been decoded; (config-proxy, round 9) the REAL entry point Config.Proxy (connection preface, TLS dial of the origin through a build-time seam, wiring of the relays) between a raw client and a raw TLS origin: client SETTINGS {none, INITIAL_WINDOW_SIZE 8 / 1000} x {MAX_FRAME_SIZE none / 20000} x {connection WINDOW_UPDATE none / 100000} x first-flight segmentation(6: every piece its own segment, preface | rest, preface+SETTINGS | rest, all in one segment, no waiting, the preface itself in two segments) then EVERY sequence of 2 (quick) / 3 (thorough) events out of 7 (DATA both ways, WINDOW_UPDATE, SETTINGS, an 18000-octet DATA frame, a pause of two minutes), the same ledger / frame-size / fidelity oracles plus final delivery once both receivers open their windows wide; (through-martian) the same through martian.Proxy: CONNECT intercepted (handleMITM), ALPN h2, idle timeout 30 s configured, client window {default, 8} x segmentation {pieces, one segment} x the same event sequences")
 	}
 	s.Assume = []string{"the iteration order of the relay's per-stream queue map (Go leaves it unspecified) is owned by the harness through a build-time rewrite of the range statement: every rotation of the sorted stream ids is an explored choice", "the harness copies the relay wiring of Config.Proxy (which dials TLS itself and cannot run on the simulated network); the connection preface is outside the harness", "golang.org/x/net/http2.Framer and hpack are the endpoints' codecs", "(relay-interleavings) sync.Mutex / atomics / go statements of relay.go are redirected at build time to a cooperative scheduler: processFrame(client frames) || processFrame(server frames) || the two frame writers run as four scheduler threads over pre-loaded frames, all interleavings with at most 1 (quick) / 2 (thorough) preemptions; in the other families events are separated by quiescence"}
 	q, th := 3, 5
